@@ -9,7 +9,8 @@ import sys
 import tempfile
 
 ROOT = os.path.dirname(os.path.dirname(os.path.abspath(__file__)))
-SRC = "/tmp/mut"
+SRC = sys.argv[1] if len(sys.argv) > 1 else "/tmp/mut"
+VARIANTS = tuple(sys.argv[2]) if len(sys.argv) > 2 else ("A", "B")
 
 
 def sh(cmd, **kw):
@@ -18,9 +19,12 @@ def sh(cmd, **kw):
 
 def main():
     results = {}
+    rp = os.path.join(ROOT, "seeded", "RESULTS.json")
+    if os.path.exists(rp):
+        results = json.load(open(rp))
     props = sorted(d for d in os.listdir(SRC) if d.startswith("C"))
     for p in props:
-        for v in ("A", "B"):
+        for v in VARIANTS:
             mdir = os.path.join(SRC, p, v)
             if not os.path.exists(os.path.join(mdir, "patch.diff")):
                 continue
